@@ -269,17 +269,21 @@ def _reexec_py_modules():
         if modname not in _orig_src:
             _orig_src[modname] = open(mod.__file__).read()
         src = _mutated_source(modname, _orig_src[modname])
+        before = dict(mod.__dict__)
         exec(compile(src, mod.__file__, "exec"), mod.__dict__)
-        # classes re-created in their module must be re-exported
+        # functions/classes re-created by the re-execution replace the old
+        # objects wherever another pyspike module imported them by name
         import pyspike
-        for cls in ("SpikeTrain", "PieceWiseConstFunc", "PieceWiseLinFunc",
-                    "DiscreteFunc"):
-            if modname == "pyspike." + cls:
-                setattr(pyspike, cls, getattr(mod, cls))
-                for other in _PY_MODS:
-                    om = sys.modules.get(other)
-                    if om is not None and hasattr(om, cls) and other != modname:
-                        setattr(om, cls, getattr(mod, cls))
+        holders = [pyspike] + [sys.modules[o] for o in _PY_MODS if o in sys.modules and o != modname]
+        for nm, oldobj in before.items():
+            newobj = mod.__dict__.get(nm)
+            if newobj is oldobj or not callable(oldobj) or nm.startswith("__"):
+                continue
+            if getattr(oldobj, "__module__", None) != modname:
+                continue
+            for h in holders:
+                if h.__dict__.get(nm) is oldobj:
+                    setattr(h, nm, newobj)
     _mutated_mods.clear()
     _mutated_mods.update(want)
 
